@@ -4,6 +4,13 @@ The prompt contains ONLY the property's text and the worktree path (nothing from
 import json, subprocess, sys, os
 pid = sys.argv[1]
 tag = sys.argv[2] if len(sys.argv) > 2 else ""
+ROUND2 = tag.startswith("-r2")
+import glob
+prev = []
+if ROUND2:
+    for mp in sorted(glob.glob(f"/verif/seeded/{pid}-*/meta.json")):
+        prev.append((json.load(open(mp)).get("summary") or "")[:260])
+NUMS = "4,5,6" if ROUND2 and prev else "1,2,3"
 wt = f"/tmp/seed/{pid}{tag}"
 props = {json.loads(l)["id"]: json.loads(l) for l in open("/verif/properties.jsonl")}
 p = props[pid]
@@ -25,10 +32,10 @@ TASK: produce up to THREE independent variants (each a separate small change rel
  1. pkgcore still imports/compiles and the WHOLE existing test suite still passes (run it; see command above);
  2. the property above is violated for some input / history / schedule / crash point;
  3. the violation needs something specific to manifest — an unusual input, a multi-step sequence of operations, a crash or fault at a particular point, a particular interleaving, or two cooperating sites that each look fine alone — not something ordinary use would expose at once. Make it look like a plausible mistake or over-eager refactor a developer could make (not a comment saying "bug here", no dead giveaways, no sabotage marker). Prefer changing logic in the anchored code over adding new special-case code;
- 4. you supply a demonstration: a standalone script `demoN.py` (N = 1,2,3) that exits 0 on the clean checkout and exits non-zero (assertion failure) with the variant applied, when run as `cd {wt} && PYTHONPATH={wt}/src /venv/bin/python _seed/demoN.py`. The demo must exercise pkgcore's real code (no mocks of the function under test) and assert the property's observable behaviour.
+ 4. you supply a demonstration: a standalone script `demoN.py` (N = {NUMS}) that exits 0 on the clean checkout and exits non-zero (assertion failure) with the variant applied, when run as `cd {wt} && PYTHONPATH={wt}/src /venv/bin/python _seed/demoN.py`. The demo must exercise pkgcore's real code (no mocks of the function under test) and assert the property's observable behaviour.
 
 NOTE: the clean checkout may ALREADY violate the property in some ways (it has some pre-existing bugs). Your demo must pass on the clean checkout, so steer around pre-existing misbehaviour; if a pre-existing bug makes a behaviour undemonstrable (e.g. an object cannot even be constructed), pick a different clause of the property.
 
 For each variant N: start from a clean tree (`git -C {wt} checkout -- . `), make the change, run the full test suite and confirm it passes, run the demo and confirm it FAILS, save the change with `git -C {wt} diff -- src data > {wt}/_seed/patchN.diff`, then revert (`git -C {wt} checkout -- src data`) and confirm the demo PASSES on the clean tree. Finally leave the worktree clean (only the untracked `_seed/` directory with patchN.diff, demoN.py and a `meta.json`). meta.json: a list with one object per variant: {{"variant": N, "property": "{pid}", "summary": "...what was changed...", "needs_to_manifest": "...", "files": [...], "suite_passed": true, "demo_fails_with_patch": true, "demo_passes_clean": true}}.
 
-Do not commit anything and never use `git stash` (the stash is shared with other worktrees). Your final message: one short paragraph per variant (what changed, what it needs to manifest), plus anything that did not work out.""")
+{("ALREADY TRIED by others (do NOT repeat these or close cousins of them; find different sites, different clauses of the property, different kinds of mistake):" + chr(10) + chr(10).join(" - " + x for x in prev) + chr(10) + chr(10)) if prev else ""}Do not commit anything and never use `git stash` (the stash is shared with other worktrees). Your final message: one short paragraph per variant (what changed, what it needs to manifest), plus anything that did not work out.""")
